@@ -493,7 +493,7 @@ func (rtcmHandler *Handler) GetMessage(bitStream []byte) (*Message, error) {
 // getTimeDisplayFromTimestamp gets a printable version of the time from the
 // timestamp.  If that provokes an error, BOTH the string and the error
 // are returned.
-func (rtcmHandler Handler) getTimeDisplayFromTimestamp(messageType int, timestamp uint) (string, error) {
+func (rtcmHandler *Handler) getTimeDisplayFromTimestamp(messageType int, timestamp uint) (string, error) {
 
 	result := "Time "
 
@@ -807,7 +807,7 @@ func (rtcmHandler *Handler) getUTCFromGalileoTime(timestamp uint) (time.Time, er
 	timeFromTimestamp, newStartOfWeek, err := getUTCFromTimestamp(
 		timestamp,
 		rtcmHandler.timestampFromPreviousGalileoMessage,
-		rtcmHandler.startOfGPSWeek)
+		rtcmHandler.startOfGalileoWeek)
 
 	if err != nil {
 		return timeFromTimestamp, err
